@@ -18,6 +18,8 @@ for name in sorted(os.listdir("/verif/seeded")):
     if not os.path.isdir(d) or (sys.argv[1:] and not any(s in name for s in sys.argv[1:])):
         continue
     meta = json.load(open(f"{d}/meta.json"))
+    if meta.get("superseded_by_fix"):
+        results[name] = {"status": "superseded by fix " + meta["superseded_by_fix"]}; print(name, "superseded"); continue
     sh("git checkout -q -- . ; rm -f larking/seed_demo_test.go", cwd=WT)
     shutil.copy(f"{d}/seed_demo_test.go", f"{WT}/larking/seed_demo_test.go")
     rc0, _ = sh("go test -vet=off -count=1 ./larking/ -run TestSeedDemo", cwd=WT)
